@@ -308,6 +308,45 @@ def lockstep_scenarios(rng, thorough=False):
     return out
 
 
+def emu_report_scenarios(rng, thorough=False):
+    """Emulation CU only, dispatcher side scripted (`emuplan`): work-groups mapped one after the other (so their completions
+    are not batched) while the dispatcher does not take completion messages (back-pressure on ToDispatcher: the one-entry
+    outgoing buffer stays full, handleWGCompleteEvent's send fails and the event is scheduled again every cycle), then the
+    link is freed.  The shapes are the behaviours of CUReport.tla: Map, Run/Handle (steps), failed sends, Take."""
+    mem = {'vdef': [5, 5], 'sdef': [5, 5], 'i': [1, 1], 'seed': 1}
+    raw = [{'mode': 'raw', 'nwf': 2, 'body': ['nop', 'bar', 'w:0:0', 'end']}]
+    tab = [{'mode': 'table', 'progs': [['gst', 'w:0:0', 'bar', 'gld', 'w:0:0', 'out'], ['lst', 'bar', 'lld', 'w:15:0', 'out']]}]
+
+    def sc(name, kernels, n, plan):
+        return {'name': name, 'emuonly': True, 'kernels': kernels, 'wgs': [{'k': 0, 'at': 0}] * n, 'mem': mem, 'emuplan': plan}
+    out = [sc('emu_link_free', raw, 3, [['map', 1], ['step', 6], ['map', 2], ['step', 6], ['map', 3], ['step', 6]])]
+    # A's message stays in the port, B's send fails k times, then the link frees
+    for k in (1, 3, 9):
+        out.append(sc('emu_retry_%d' % k, raw if k != 3 else tab, 2,
+                      [['hold'], ['map', 1], ['step', 8], ['map', 2], ['step', 4 + k], ['free'], ['step', 4]]))
+    # a third group arrives while B retries: B leaves the sending to it
+    out.append(sc('emu_retry_then_third', raw, 3,
+                  [['hold'], ['map', 1], ['step', 8], ['map', 2], ['step', 6], ['map', 3], ['step', 6], ['free'], ['step', 4]]))
+    # three groups batched behind a held message, the held one taken alone, then the rest
+    out.append(sc('emu_batch_behind_held', raw, 4,
+                  [['hold'], ['map', 1], ['step', 8], ['map', 2], ['map', 3], ['map', 4], ['step', 9], ['take'], ['step', 3], ['free']]))
+    for i in range(40 if thorough else 6):
+        n = rng.randint(2, 5)
+        plan, nxt, holding = [], 1, False
+        for _ in range(rng.randint(4, 14)):
+            op = rng.choice(['map', 'map', 'step', 'step', 'hold', 'free', 'take'])
+            if op == 'map':
+                if nxt <= n:
+                    plan.append(['map', nxt])
+                    nxt += 1
+            elif op == 'step':
+                plan.append(['step', rng.randint(1, 9)])
+            else:
+                plan.append([op])
+        out.append(sc('emu_plan%d' % i, rng.choice([raw, raw, tab]), n, plan))
+    return out
+
+
 def fe_scenarios(rng, thorough=False):
     """Front-end scenarios (flag "fe": the driver also logs fetches, retirements and what the issue arbiter saw):
     loops (backward branches: the instruction buffer is flushed and refilled, fetches in flight become stale), early exits
@@ -466,6 +505,15 @@ def corruptions():
         i = rng.choice(idx)
         return recs[:i + 1] + [dict(recs[i])] + recs[i + 1:]
 
+    def group_twice_in_message(recs, rng):
+        # the completion message names its group twice (a retried send that queued the id again)
+        idx = [i for i, r in enumerate(recs) if r['e'] == 'WGMsg' and r['ids']]
+        if not idx:
+            return None
+        i = rng.choice(idx)
+        recs[i]['ids'] = list(recs[i]['ids']) + [recs[i]['ids'][-1]]
+        return recs
+
     def completion_before_sibling_end(recs, rng):
         # drop the WfEnd of a wavefront that is not the last of its group: the completion then comes too early
         wg = {}
@@ -522,7 +570,7 @@ def corruptions():
 
     return [('instruction_after_barrier_before_sibling_arrives', post_barrier_issue_early),
             ('waitcnt_completes_with_load_in_flight', drop_last_response_before_wait),
-            ('duplicate_completion_message', duplicate_completion),
+            ('duplicate_completion_message', duplicate_completion), ('group_named_twice_in_one_message', group_twice_in_message),
             ('completion_before_a_wavefront_ended', completion_before_sibling_end),
             ('corrupt_outstanding_counter', corrupt_counter),
             ('wavefront_ends_with_memory_in_flight', end_before_memory),
@@ -701,7 +749,7 @@ def _est_events(sc):
                 else:
                     ops += rep
             n += k['nwf'] * (80 + 3 * ops)
-    return (3 if sc.get('fe') else 2) * n
+    return (3 if sc.get('fe') else 1 if sc.get('emuonly') else 2) * n
 
 
 def _run_scenarios(ctx, drv, scen, tag):
@@ -917,8 +965,22 @@ def run(ctx, selftest=False):
 
     # 3b. co-resident groups in lock step (several internal instructions evaluated in one scheduler pass)
     lock = lockstep_scenarios(rng, thorough)
-    _run_and_validate(ctx, drv, lock, 'lock', files, tot)
+    # 3b'. the emulation CU's completion report under back-pressure (CUReport.tla), validated in the same TLC run
+    r = ctx.tlc_expect_ok(['cusched'], 'CUReport.tla', 'MC_CUReport.cfg', timeout=600, workers=2)
+    ctx.log('MC_CUReport (emulation CU: 3 groups, one-entry port, <= 3 failed sends): %d distinct states; CompletionOnce, NoHang, '
+            'IdempotentRetry hold' % r.distinct)
+    r = ctx.tlc(['cusched'], 'CUReport.tla', 'MC_CUReport_dev_retry.cfg', timeout=600, workers=1)
+    if 'CompletionOnce' not in r.violated:
+        raise vlib.Infra('CUReport with deviation RetryAppends does not violate CompletionOnce (violated: %s, error: %s)' % (r.violated, r.error))
+    ctx.log('CUReport with deviation RetryAppends: CompletionOnce violated after %d steps' % len(r.counterexample()))
+    if thorough:
+        for cfg in ('MC_CUReport_live.cfg', 'MC_CUReport_4g.cfg'):
+            r = ctx.tlc_expect_ok(['cusched'], 'CUReport.tla', cfg, timeout=900, workers=2)
+            ctx.log('%s: %d distinct states' % (cfg, r.distinct))
+    emur = emu_report_scenarios(rng, thorough)
+    _run_and_validate(ctx, drv, lock + emur, 'lock', files, tot)
     ctx.cov['lockstep_scenarios'] = len(lock)
+    ctx.cov['emulation_report_scenarios'] = len(emur)
 
     # 3c. the front end: fetch, instruction buffer, decode, issue arbitration, retirement
     front_end(ctx, drv, rng, thorough, W, files, tot)
